@@ -393,3 +393,48 @@ Theorem stop_start_serves_again s : started s = true ->
   let s' := step (step s Stop) Start in
   started s' = true /\ listening s' = true /\ acceptors s' = 1.
 Proof. intros Hs. unfold step. cbn. rewrite Hs. cbn. repeat split. Qed.
+
+(* T4: after Stop every server goroutine has an exit path and takes it in at
+   most two steps: a taken connection is refused, a served one (closed by
+   Stop) ends and is removed, an accept goroutine returns; refused, removed
+   and dropped connections have no enabled step left. Handlers that never
+   return are outside the model. *)
+Lemma end_effect s c : stat s c = Serving -> closed s c = true ->
+  stat (step s (End c ClosedByStop)) c = Ended.
+Proof.
+  intros Hc Hcl. unfold step. cbn [enabled]. rewrite Hc, Hcl. cbn [stat_eqb andb negb stat].
+  apply upd_same.
+Qed.
+
+Lemma remove_stat s c : stat s c = Ended -> stat (step s (Remove c)) c = Removed.
+Proof.
+  intros He. unfold step. cbn [enabled]. rewrite He. cbn [stat_eqb negb stat]. apply upd_same.
+Qed.
+
+Theorem stopped_session_winds_down s c : Inv s -> started s = false -> stat s c = Serving ->
+  enabled s (End c ClosedByStop) = true /\
+  let s1 := step s (End c ClosedByStop) in
+  enabled s1 (Remove c) = true /\ stat (step s1 (Remove c)) c = Removed.
+Proof.
+  intros I Hs Hc. pose proof (inv_stopped s I Hs c Hc) as Hcl.
+  split; [cbn [enabled]; rewrite Hc, Hcl; reflexivity|]. cbn zeta.
+  pose proof (end_effect s c Hc Hcl) as He. split.
+  - cbn [enabled]. rewrite He. reflexivity.
+  - apply remove_stat. exact He.
+Qed.
+
+Theorem terminal_has_no_step s c :
+  stat s c = Rejected \/ stat s c = Removed \/ stat s c = Dropped ->
+  enabled s (Take c) = false /\ enabled s (Enrol c) = false /\ enabled s (Req c) = false /\
+  (forall w, enabled s (End c w) = false) /\ enabled s (Remove c) = false /\ enabled s (Arrive c) = false.
+Proof.
+  intros H. cbn [enabled].
+  destruct H as [H|[H|H]]; rewrite H; cbn; repeat split; try apply andb_false_r; intros w; destruct w; reflexivity.
+Qed.
+
+Theorem zombie_exits s : 0 < zombies s ->
+  enabled s AcceptExit = true /\ zombies (step s AcceptExit) = pred (zombies s).
+Proof.
+  intros H. assert (E : Nat.ltb 0 (zombies s) = true) by (apply Nat.ltb_lt; exact H).
+  cbn [enabled]. split; [exact E|]. unfold step. cbn [enabled]. rewrite E. reflexivity.
+Qed.
